@@ -1,4 +1,5 @@
 import NxProofs.Schema
+import NxProofs.SchemaOrder
 /-!
 # C13 — generated structures and methods use exactly the layout their definitions state
 
@@ -70,6 +71,17 @@ theorem gate_exact (g ver : Nat) (body rest : Items) (hg : 0 < g) :
   · have : ¬ g - 1 ≥ g := by omega
     simp [Items.active, this]
 
+/-- blocks stay where the definition puts them: two blocks under the same gate `g` separated by a block under another
+    gate (`MatchmakeSession`: `nex 30500 {progress_score} nex 30000 {session_key} nex 30500 {option}`) are serialised
+    around it in declaration order once both gates are open, and only the middle one while `g` is closed — the later
+    block is not part of the earlier one (a reader merging them states another layout; examples below) -/
+theorem gate_repeat_in_place (g h nex ver : Nat) (a b c rest : Items) (hh : nex ≥ h) :
+    (nex ≥ g → (Items.nex g a (Items.nex h b (Items.nex g c rest))).active nex ver
+        = a.active nex ver ++ (b.active nex ver ++ (c.active nex ver ++ rest.active nex ver)))
+      ∧ (¬ nex ≥ g → (Items.nex g a (Items.nex h b (Items.nex g c rest))).active nex ver
+        = b.active nex ver ++ rest.active nex ver) :=
+  ⟨fun hg => active_repeat_in_place g h nex ver a b c rest hg hh, fun hg => active_repeat_closed g h nex ver a b c rest hg hh⟩
+
 /-- request layout: the generated client hands (protocol id, method id, parameters encoded in declaration order)
     to the RMC layer, and the generated server decodes exactly the visible arguments from it (ignoring, as the
     code does, anything that follows) -/
@@ -132,5 +144,16 @@ example : clientRequest Ex.env Ex.cfgOld 8 Ex.proto Ex.meth [Ex.sessionVal, .int
 example : wfProtos Ex.env = true ∧ wfStructs Ex.env = true := by decide
 example : (Items.nex 30500 (.field 2 .string true .nil) (.field 1 .pid false .nil)).active 30500 0 = [2, 1] := by decide
 example : (Items.nex 30500 (.field 2 .string true .nil) (.field 1 .pid false .nil)).active 30499 0 = [1] := by decide
+-- a repeated gate around another block: declaration order, NOT the order of a reader that merges the two blocks;
+-- the two layouts differ as soon as `option ≠ 0` (or the key is not empty), and coincide below the repeated gate
+example : ExOrder.asWritten.items.active 30500 0 = [1, 2, 3] ∧ ExOrder.merged.items.active 30500 0 = [1, 3, 2] := by decide
+example : encode ExOrder.envW ExOrder.cfg305 8 (.struct 85) (.obj 85 [.int 100, .bytes [], .int 1])
+    = .ok [100, 0, 0, 0, 0, 1, 0, 0, 0] := by decide
+example : encode ExOrder.envM ExOrder.cfg305 8 (.struct 85) (.obj 85 [.int 100, .int 1, .bytes []])
+    = .ok [100, 1, 0, 0, 0, 0, 0, 0, 0] := by decide
+example : encode ExOrder.envW ExOrder.cfg304 8 (.struct 85) (.obj 85 [.int 100, .bytes [0xAA], .int 1])
+    = .ok [1, 0, 0, 0, 0xAA] := by decide
+example : encode ExOrder.envM ExOrder.cfg304 8 (.struct 85) (.obj 85 [.int 100, .int 1, .bytes [0xAA]])
+    = .ok [1, 0, 0, 0, 0xAA] := by decide
 
 end Nx.C13
